@@ -58,7 +58,9 @@ class C08(Prop):
                   "reaches a NULL / dangling dereference (no_crash) or an endless super walk (no_hang); objects(filter) lists "
                   "only live objects, in obj_list order (objects_filter_sound); the name table refines a finite map (NV/C08/Refine.lean: "
                   "find = read, enter = insert / refused, unlink = delete); load_object's inherit detour with its re-lookup and "
-                  "user_parser's loop with actions returning 0 are inside the interpreter the theorems quantify over; the model is tied to the source by the "
+                  "user_parser's loop with actions returning 0 are inside the interpreter the theorems quantify over; inside a task "
+                  "allocated objects keep their names and destructed objects stay destructed (exec_stable), and the object "
+                  "find_or_load_object returns is the one registered under the name (load_returns_registered); the model is tied to the source by the "
                   "regenerated Pearson hash table / hash sizes / prefix lengths / comparison operators, by 18 tie obligations "
                   "over regenerated statement orders and conditions, and by running the real driver "
                   "and the model on the same generated histories with a walker over the real structures after every step; "
